@@ -429,6 +429,9 @@ where
     }
 
     fn prepend<B: BitVector>(&mut self, prefix: &B) {
+        if prefix.is_empty() {
+            return;
+        }
         self.resize(self.length + prefix.len(), Bit::Zero);
         *self <<= prefix.len();
         let last = prefix.int_len::<u8>() - 1;
